@@ -40,6 +40,7 @@ let dispatch (name : string) (args : M.n list) : M.n list list =
   | "C14" -> M.run_c14 args
   | "DBGT" -> M.run_dbgt args
   | "DBGS" -> M.run_dbgs args
+  | "WATCH" -> M.run_watch args
   | _ -> failwith ("unknown case kind " ^ name)
 
 let () =
